@@ -199,6 +199,9 @@ def run_sync(spec: dict, history: List[list], opts: Optional[dict] = None) -> Ru
                             sched.advance(op[1] / 1000.0)
                     elif op[0] == "stop":
                         interp.stop()
+                        if sched:
+                            sched.settle()
+                            extra["live_after_stop"] = list(sched.live())
                     elif op[0] == "can":
                         extra["can"] = interp.can(op[1])
                     elif op[0] == "snap":
@@ -368,6 +371,11 @@ def run_async(spec: dict, history: List[list], opts: Optional[dict] = None) -> R
                         await asyncio.sleep(op[1] / 1000.0)
                     elif op[0] == "stop":
                         await interp.stop()
+                        for _ in range(3):
+                            await asyncio.sleep(0)
+                        me_ = asyncio.current_task()
+                        extra["live_after_stop"] = [getattr(t.get_coro(), "__qualname__", repr(t)) for t in asyncio.all_tasks(loop)
+                                                    if t is not me_ and not t.done()]
                     elif op[0] == "can":
                         extra["can"] = interp.can(op[1])
                     elif op[0] == "snap":
